@@ -401,3 +401,29 @@ def crash_concrete(W, cfg, S, path, args, old, had_file, K):
     where = 'kill after %d file operations (real h5py, child exit %d)' % (
         kk, code)
     check_after_crash(W, S, path, old, new, had_file, where)
+
+
+def write_resume(W, cfg):
+    """full write followed by a resume of a sampler with many shells: every
+    field, and the identity of the bound of every shell, comes back in place
+    (C05); the resumed sampler still satisfies the shell-membership invariant
+    (C01)."""
+    S, like = st.build(W, cfg)
+    path = ckpt_path(W)
+    try:
+        S.filepath = path
+        ok, _ = call(W, 'C05:write-no-raise',
+                     lambda: S.write(path, overwrite=True))
+        if not ok:
+            return
+        ok, S2 = call(W, 'C05:resume-no-raise', lambda: resume(W, S, path))
+        if not ok:
+            return
+        same_state(W, S, S2, 'C05:full-write-mirrors-state')
+        if 'C01' in cfg.get('props', []):
+            try:
+                st.check_c01(W, S2, tag='-after-resume')
+            except (IndexError, AttributeError) as e:
+                W.require(False, 'C01:resumed-sampler-well-formed', repr(e))
+    finally:
+        cleanup(W)
